@@ -49,6 +49,7 @@ type FuncContract struct {
 	Results  []Param
 	Props    []string
 	Requires []*Clause
+	ObjInvs  []*Clause // object invariants over private state: assumed at entry (also at call sites, unchecked there)
 	Defines  []*Clause // definitional axioms of spec functions local to this contract (assumed at entry)
 	Ensures  []*Clause
 	Lets     []LetDef
@@ -294,7 +295,7 @@ func (sp *Specs) LoadFile(path, pkgName string) error {
 			cur.Fresh = true
 		case "may_panic":
 			cur.MayPanic = true
-		case "requires", "ensures", "invariant", "assume", "define":
+		case "requires", "ensures", "invariant", "assume", "define", "objinv":
 			if cur == nil {
 				return fail("%s outside a function contract", word)
 			}
@@ -339,6 +340,8 @@ func (sp *Specs) LoadFile(path, pkgName string) error {
 				cur.Branches[curBranch] = append(cur.Branches[curBranch], c)
 			case word == "define":
 				cur.Defines = append(cur.Defines, c)
+			case word == "objinv":
+				cur.ObjInvs = append(cur.ObjInvs, c)
 			case word == "requires":
 				cur.Requires = append(cur.Requires, c)
 			default:
